@@ -741,6 +741,16 @@ def pure_body_expr(fn: ast.FunctionDef) -> Optional[ast.AST]:
 def _pure_body_expr(fn: ast.FunctionDef) -> Optional[ast.AST]:
     from .guards import walk_function
     body = _docless(fn.body)
+    if len(body) == 1 and isinstance(body[0], ast.Try) and not body[0].finalbody and \
+            not body[0].orelse and body[0].handlers and \
+            all(h.body and all(isinstance(s, (ast.Raise, ast.Assign, ast.AnnAssign))
+                               for s in h.body) and isinstance(h.body[-1], ast.Raise)
+                for h in body[0].handlers):
+        # `try: return E except X as e: raise Y(..) from e`: the handlers only translate the
+        # exception; when a value comes back it is E
+        inner = copy.copy(fn)
+        inner.body = list(body[0].body)
+        return _pure_body_expr(inner)
     if not body or not isinstance(body[-1], ast.Return) or body[-1].value is None:
         return None
     chain = []      # `if C: return A` steps before the final return
@@ -867,6 +877,18 @@ def inline_methods_by_name(index: RepoIndex, expr: ast.AST, depth: int = 3,
                 for mn, m in cc.methods.items():
                     by_name.setdefault(mn, []).append(m)
 
+    # module-level instances of package classes (`grid_object_registry = GridObjectRegistry()`)
+    instances: Dict[str, list] = {}
+    for mod in index.modules.values():
+        if not mod.relpath.startswith('gym_gridverse/'):
+            continue
+        for st in mod.tree.body:
+            if isinstance(st, ast.Assign) and len(st.targets) == 1 and \
+                    isinstance(st.targets[0], ast.Name) and isinstance(st.value, ast.Call) and \
+                    isinstance(st.value.func, ast.Name) and st.value.func.id in by_class and \
+                    len(by_class[st.value.func.id]) == 1:
+                instances.setdefault(st.targets[0].id, []).append(by_class[st.value.func.id][0])
+
     class T(ast.NodeTransformer):
         def visit_Call(self, c: ast.Call):
             c = self.generic_visit(c)
@@ -878,7 +900,20 @@ def inline_methods_by_name(index: RepoIndex, expr: ast.AST, depth: int = 3,
             if isinstance(c.func.value, ast.Name) and c.func.value.id in module_aliases:
                 return c        # `np.tile(..)`: a library function, not a method
             static = False
-            if isinstance(c.func.value, ast.Name) and c.func.value.id in by_class and \
+            known = None
+            if isinstance(c.func.value, ast.Name) and \
+                    len(instances.get(c.func.value.id, [])) == 1:
+                # the receiver is a module-level instance: its class is known, so the method
+                # need not have a package-unique name
+                known = instances[c.func.value.id][0].methods.get(c.func.attr)
+                if known is not None and new_only:
+                    from .pinned_names import PARAMS as _PP
+                    if f'{known.module.relpath}:{known.short}' in _PP:
+                        known = None
+                        return c
+            if known is not None and not known.node.decorator_list:
+                m = known
+            elif isinstance(c.func.value, ast.Name) and c.func.value.id in by_class and \
                     len(by_class[c.func.value.id]) == 1:
                 # `Area.from_shape(..)`: the class is named, the method need not be unique
                 m = by_class[c.func.value.id][0].methods.get(c.func.attr)
